@@ -54,6 +54,58 @@ def impl_interval(ns: int):
     return [kid.l0, kid.l1, kid.l2]
 
 
+def impl_ticking(arg):
+    """the clock advances by `step` ns on every read; returns the key identifier and the instants read"""
+    import dpapi_ng
+    from dpapi_ng._blob import DPAPINGBlob
+
+    t0, step = arg
+    reads = []
+
+    def clock():
+        reads.append(t0 + len(reads) * step)
+        return reads[-1]
+
+    cache = dpapi_ng.KeyCache()
+    cache.load_key(RK, RK_ID)
+    real = time.time_ns
+    time.time_ns = clock
+    try:
+        blob = dpapi_ng.ncrypt_protect_secret(b"x", "S-1-5-18", root_key_identifier=RK_ID, cache=cache)
+    finally:
+        time.time_ns = real
+    kid = DPAPINGBlob.unpack(blob).key_identifier
+    impl_ticking.last_reads = list(reads)
+    return [kid.l0, kid.l1, kid.l2]
+
+
+def pred_ticking(arg, out):
+    """With a moving clock the identifier must still be the interval of ONE instant between the first and the last clock read of the call."""
+    t0, step = arg
+    reads = getattr(impl_ticking, "last_reads", None) or [t0]
+    lo, hi = reads[0] // 100 + EPOCH, reads[-1] // 100 + EPOCH
+    cands = {tuple(spec(lo)), tuple(spec(hi))}
+    # every L2 boundary between lo and hi starts a new candidate interval
+    t = (lo // D2 + 1) * D2
+    while t <= hi and len(cands) < 100:
+        cands.add(tuple(spec(t)))
+        t += D2
+    if out is None or tuple(out) not in cands:
+        return f"key identifier {out} is the interval of no instant between the first and the last clock read of the call ({sorted(cands)[:3]}...)"
+    return None
+
+
+def ticking_cases(ctx: Ctx):
+    cases = []
+    first_epoch = EPOCH // D0 + 1
+    for div, k0 in ((D0, first_epoch), (D1, (EPOCH + 20000 * D2) // D1 + 1), (D2, (EPOCH + 20000 * D2) // D2 + 1)):
+        for k in range(k0, k0 + ctx.n(4, 40)):
+            for before in (1, 5, 15, 25):
+                for step in (300, 1000, 2500):
+                    cases.append([ns_of_filetime(k * div - before), step])
+    return cases
+
+
 def impl_truediv(arg):
     import math
 
@@ -102,8 +154,15 @@ def units(ctx: Ctx, only=None):
             return f"key identifier {out} but the interval containing t={t} is {spec(t)}"
         return None
 
+    tick = [] if getattr(ctx, "replay_only", False) else ticking_cases(ctx)
+
+    def impl_tick_first(arg):
+        return impl_ticking(arg)
+
     return [
         Unit("interval.sweep", "interval", cases, impl_interval, prop_pred=pred),
+        # the model reads the clock once: the unit's model input is the first instant read
+        Unit("interval.ticking", "interval.first", tick, impl_tick_first, prop_pred=pred_ticking),
         Unit("truediv.prim", "truediv", td, impl_truediv),
     ]
 
@@ -129,7 +188,15 @@ def search(ctx: Ctx):
                             "expected": spec(t), "observed": got, "tried": tried,
                             "why": "key identifier is not the interval containing the current time",
                             "key": "interval"}
-    ctx.notes.append(f"search: {tried} boundary instants agree with the floor formulas")
+    from ..core import run_impl
+    from ..val import dec, enc
+
+    for c in ticking_cases(ctx):
+        tried += 1
+        why = pred_ticking(c, dec(run_impl(impl_ticking, c)))
+        if why:
+            return {"unit": "interval.ticking", "input": enc(c), "why": why, "tried": tried, "key": "interval-ticking"}
+    ctx.notes.append(f"search: {tried} boundary instants (frozen and ticking clocks) agree with the floor formulas")
     return None
 
 
